@@ -21,6 +21,17 @@ Theorem cell_boundary_event_is_the_earliest_wall : forall cs best,
 Proof. exact choose_earliest. Qed.
 Print Assumptions cell_boundary_event_is_the_earliest_wall.
 
+(** what the handler stores: a direction of motion, one of the two wall values the cell system supplied for that direction,
+    and a time that no other direction undercuts *)
+Theorem cell_boundary_event_stores_a_wall_of_its_direction : forall pos vel Ls bmins bmaxs c,
+  Forall cand_finite (cb_candidates pos vel Ls bmins bmaxs) ->
+  cb_choose pos vel Ls bmins bmaxs = Some c ->
+  (cb_dir c < length vel)%nat /\
+  (cb_bound c = nth (cb_dir c) bmins fnan \/ cb_bound c = nth (cb_dir c) bmaxs fnan) /\
+  forall c', In (Some c') (cb_candidates pos vel Ls bmins bmaxs) -> (B2R (cb_t c) <= B2R (cb_t c'))%R.
+Proof. exact chosen_bound. Qed.
+Print Assumptions cell_boundary_event_stores_a_wall_of_its_direction.
+
 Theorem cell_boundary_out_state : forall Ls T c st r out,
   cb_out_state Ls T c st r = Some out ->
   exists st1, all_some (map (slice_unit_Ls Ls T) st) = Some st1 /\ length out = length st1 /\
